@@ -28,8 +28,15 @@ def build(tier, ctx):
         two = [(nm, sh) for nm in NAMES for sh in (SH[1], SH[2])]
         stores += list(itertools.combinations_with_replacement(two, 4))
     chunk = 2 if tier == "quick" else 8
-    return [{"stores": stores[i:i + chunk]}
-            for i in range(0, len(stores), chunk)]
+    # scale: more traces / ids than the sizes at which SQL id lists are
+    # usually chunked (500 / 900 / 999 / 1000)
+    sizes = [(701, 1000), (1001, 1000), (1301, 1000)]
+    if tier == "thorough":
+        sizes += [(1000, 1000), (1130, 1000), (1251, 1000), (1801, 1000),
+                  (1301, 5000), (1301, 400)]
+    return [{"scale": [sz], "stores": []} for sz in sizes] + \
+        [{"stores": stores[i:i + chunk]}
+         for i in range(0, len(stores), chunk)]
 
 
 def filters_for(byname):
@@ -66,7 +73,18 @@ def run_store(store):
     return n, bad, hits
 
 
-def run_store_mode(store, shared, empty_root=False):
+def scale_store(n):
+    # four traces in five belong to the first workflow, so that one name
+    # alone holds more ids than a chunked statement would take
+    return [(NAMES[1] if k % 10 == 0 else NAMES[2] if k % 10 == 5
+             else NAMES[0], SH[(k * 3) % len(SH)]) for k in range(n)]
+
+
+SCALE_FILTERS = ("none", "all_asc", "allofone")
+
+
+def run_store_mode(store, shared, empty_root=False, batches=BATCHES,
+                   scale=False):
     """shared: trace ids are only unique per workflow name (two workflows
     reuse the same ids); span ids stay globally unique"""
     from tel2puml.otel_to_pv.sequence_otel import \
@@ -111,14 +129,18 @@ def run_store_mode(store, shared, empty_root=False):
         # select different ids under two names that both hold both ids
         filters["cross"] = {names[0]: {byname[names[0]][0]},
                             names[1]: {byname[names[1]][-1]}}
-    for bs in BATCHES:
+    for bs in batches:
         if any(e % bs == 0 for e in ends):
             boundary_hits += 1
         for on, order in orders.items():
-            if on == "childfirst":
+            if on == "childfirst" or (scale and on != "seq"):
                 continue
             for fn, flt in filters.items():
+                if scale and fn not in SCALE_FILTERS:
+                    continue
                 for consumer in ("pipeline", "nested"):
+                    if scale and consumer == "nested":
+                        continue
                     n += 1
                     h = impl_otel.new_holder(batch_size=bs)
                     got = []
@@ -197,6 +219,15 @@ def _tt(x):
 def handle(task):
     out = []
     n = hits = 0
+    if task.get("scale"):
+        for nt, bs in task["scale"]:
+            k, bad, bh = run_store_mode(scale_store(nt), False,
+                                        batches=(bs,), scale=True)
+            n += k
+            for b in bad:
+                b["scale"] = [nt, bs]
+                out.append(b)
+        return {"n": n, "bad": out, "boundary_hits": 0, "scale_runs": n}
     for store in task["stores"]:
         store = [(nm, _tt(sh)) for nm, sh in store]
         k, bad, bh = run_store(store)
@@ -210,7 +241,7 @@ def handle(task):
 
 def collect(tier, tasks, results, ctx):
     viol = []
-    n = hits = nstores = nontrivial = 0
+    n = hits = nstores = nontrivial = sruns = 0
     for t, r in zip(tasks, results):
         n += r["n"]
         hits += r["boundary_hits"]
@@ -218,7 +249,18 @@ def collect(tier, tasks, results, ctx):
             nstores += 1
             if len(st) >= 2:
                 nontrivial += 1
+        sruns += r.get("scale_runs", 0)
         for b in r["bad"]:
+            if b.get("scale"):
+                viol.append({
+                    "key": input_key(["C12", "scale", b["scale"],
+                                      b["filter"]]),
+                    "what": f"{b['scale'][0]} traces cycling through all "
+                            f"shapes and names, batch={b['bs']} "
+                            f"filter={b['filter']}: {b['problem']}",
+                    "input": {"scale": b["scale"], "filter": b["filter"]},
+                    "observed": b["problem"]})
+                continue
             viol.append({
                 "key": input_key(["C12", b["store"], b["bs"], b["order"],
                                   b["filter"], b["consumer"],
@@ -242,7 +284,8 @@ def collect(tier, tasks, results, ctx):
                 "to the bound x 5 batch sizes x 3 ingestion orders x 7 "
                 "filters x 2 consumers; non-trivial = stores with at least "
                 "two traces",
-        "samples": [{"store": tasks[len(tasks) // 2]["stores"][0],
+        "samples": [{"store": [t for t in tasks
+                               if t["stores"]][0]["stores"][0],
                      "batch_sizes": list(BATCHES),
                      "filters": ["none", "allofone", "oneper", "wrongname",
                                  "norows", "all_asc", "all_desc"],
@@ -252,6 +295,7 @@ def collect(tier, tasks, results, ctx):
                    "one shape" if tier == "quick" else
                    "<= 3 traces; 4 traces over two shapes"},
         "stores": nstores,
+        "scale_runs_700_to_1800_traces": sruns,
         "store_x_batch_with_group_end_on_batch_boundary": hits,
         "states_meaning": "stores explored; transitions = streaming "
                           "configurations executed on the real code",
@@ -262,6 +306,11 @@ def collect(tier, tasks, results, ctx):
 
 def replay(rec, ctx):
     i = rec["input"]
+    if i.get("scale"):
+        n, bad, _ = run_store_mode(scale_store(i["scale"][0]), False,
+                                   batches=(i["scale"][1],), scale=True)
+        bad = [b for b in bad if b["filter"] == i["filter"]]
+        return bool(bad), repr([b["problem"] for b in bad])[:300]
     store = [(nm, _tt(sh)) for nm, sh in i["store"]]
     n, bad, _ = run_store(store)
     bad = [b for b in bad if all(b[k] == i[k] for k in
